@@ -22,6 +22,10 @@ func init() {
 			runC17(c)
 			runToStrCases(c, "C17-PATHKEY")
 			base(c, "DECLARED", "STATE", "ALIAS", "LOOP", "TEXT", "MAT")
+			importSome(c, "C18", runC18, "C17-URLVALUE", "a URL parameter registered as a group member carries its own, whole value: everything after the first '=' of its own text (obligations first-equals and own-text of rule C18-URL) — a value cut at a later '=' makes two different parameters look equal to botheq, or an '=…' value look empty to either", 2, func(key string) bool {
+				return strings.HasSuffix(key, "/first-equals") || strings.HasSuffix(key, "/own-text")
+			})
+			importRules(c, "C04", runC04, "C17-OBJPATH", "groups are kept per object path, so the paths given to nested objects must tell them apart: Parent.Field, Parent.Field[index], Parent.Field[key] with the key rendered by ToStr (rule C04-LABEL) — a label that is the same for every entry of a map merges their groups", 2, ruleIn("C04-LABEL"))
 			importRules(c, "C12", runC12Input, "C17-OWNVALUE", "each group member keeps the value of its own field/entry until the groups are evaluated at the end of the call: no reflect.Value setter refreshes a shared storage cell per entry (rule C12-INPUT)", 1, nil)
 		},
 	})
